@@ -262,8 +262,8 @@ func (w *osWorld) normText(es []snapEntry) string {
 			fmt.Fprintf(&sb, "F %s %s %s %s\n", tok(w.normPath(e.path)), f[5], f[6], f[7])
 		case 'L': // L path mode uid gid target
 			fmt.Fprintf(&sb, "L %s %s\n", tok(w.normPath(e.path)), tok(w.normPath(untok(f[5]))))
-		default:
-			sb.WriteString(e.line + "\n")
+		default: // an entry that could not be read: which one, not the OS-specific error value
+			fmt.Fprintf(&sb, "! %s\n", tok(w.normPath(e.path)))
 		}
 	}
 	return sb.String()
@@ -473,4 +473,72 @@ func runOSType(cfg config) {
 	}
 	o.extra["total_calls"] = lens
 	o.extra["evaluations"] = lens
+}
+
+// ---- what a freshly constructed file system reports ----------------------------------------------------------
+// case line:     info <fs> <os> <tag|notag>
+// observed line: refused type=<n> sep=<n>   (SetOSType returned ErrSetOSType: the type is not the requested one)
+//
+//	| type=<n> sep=<n> feat=<0|1> cwd=<tok> vols=<tok,..> dmode=<n> fmode=<n> volmgr=<0|1>
+func init() { commands["ostypeinfo"] = runOSTypeInfo }
+
+func osInfo(fsname, osname string) string {
+	w := newOSWorld(fsname, osname, 0o22, nil)
+	b := w.base
+	if b.OSType() != osTypeOf(osname) {
+		// NewWithOptions ignores the error of SetOSType: the type and the separator keep their zero values
+		return fmt.Sprintf("refused type=%d sep=%d", int(b.OSType()), int(b.PathSeparator()))
+	}
+	feat := 0
+	if b.HasFeature(avfs.FeatSetOSType) {
+		feat = 1
+	}
+	cwd, _ := b.Getwd()
+	var vols []string
+	vm, isVM := b.(avfs.VolumeManager)
+	volmgr := 0
+	if isVM {
+		volmgr = 1
+		for _, v := range vm.VolumeList() {
+			vols = append(vols, tok(v))
+		}
+		sort.Strings(vols)
+	}
+	_ = b.SetUMask(0)
+	d := avfs.Join(b, w.root, "tmp", "zd")
+	f := avfs.Join(b, w.root, "tmp", "zf")
+	if fsname == "memfs" && osname == "linux" || fsname == "orefafs" && osname == "linux" {
+		d, f = "/tmp/zd", "/tmp/zf"
+	} else {
+		_ = b.MkdirAll(avfs.Join(b, w.root, "tmp"), 0o777)
+	}
+	dm, fm := "?", "?"
+	if err := b.Mkdir(d, 0); err == nil {
+		if info, err := b.Lstat(d); err == nil {
+			dm = strconv.FormatUint(uint64(info.Mode()), 10)
+		}
+	}
+	if h, err := b.OpenFile(f, os.O_CREATE|os.O_WRONLY, 0); err == nil {
+		h.Close()
+		if info, err := b.Lstat(f); err == nil {
+			fm = strconv.FormatUint(uint64(info.Mode()), 10)
+		}
+	}
+	return fmt.Sprintf("type=%d sep=%d feat=%d cwd=%s vols=%s dmode=%s fmode=%s volmgr=%d", int(b.OSType()), int(b.PathSeparator()), feat, tok(cwd),
+		strings.Join(vols, ","), dm, fm, volmgr)
+}
+
+func runOSTypeInfo(cfg config) {
+	o := newOut(cfg.dir, cfg.name)
+	defer o.close(cfg.name)
+	tag := "notag"
+	if avfs.BuildFeatures()&avfs.FeatSetOSType != 0 {
+		tag = "tag"
+	}
+	for _, fsname := range []string{"memfs", "orefafs"} {
+		for _, osname := range []string{"linux", "windows"} {
+			o.emit(fmt.Sprintf("info %s %s %s", fsname, osname, tag), osInfo(fsname, osname), fsname+osname)
+		}
+	}
+	o.rule = "OSType(), PathSeparator(), HasFeature(FeatSetOSType), Getwd(), VolumeList(), the mode of a directory and of a file created with perm 0 under umask 0, of a freshly constructed MemFS and OrefaFS of each OS type, on this build"
 }
